@@ -1006,6 +1006,8 @@ class Eval:
             self.out.append((self.full_conds(), tuple(self.loops), ("emit", name, tuple(args))))
         if name in ("Display::fmt", "Precedence::fmt_unary", "Precedence::fmt_binary", "Precedence::fmt_operator", "Debug::fmt"):
             self.out.append((self.full_conds(), tuple(self.loops), ("emit", name, tuple(args[:-1]))))
+        if name in ("Clone::clone", "ToOwned::to_owned") and len(args) == 1 and e.get("k") == "Call":
+            return args[0]      # `T::clone(&x)`: the path spelling of `x.clone()`, a copy has the value of the original
         # iterator combinators over closures: keep symbolic but apply ctor functions
         if name in ("Iterator::map", "Option::map", "Iterator::flat_map", "Iterator::filter_map") and len(args) == 2:
             f = args[1]
